@@ -24,7 +24,7 @@ META = {
         "floats as exact reals", f"nodes of the two tessellations either coincide exactly or differ by >= {GAP}; cells "
         f"not shorter than {GAP} (well separated from the tolerance {TOL})",
         "segment embedded along the x-axis and along the rational direction (3/5, 4/5, 0)",
-        "quick: 1-3 x 1-3 cells along the x-axis (not 3x3), up to 2x2 along the oblique direction; thorough: up to 3x4 along x, up to 2x3 oblique",
+        "quick: 1-3 x 1-3 cells along the x-axis (not 3x3), 1x2 and 2x1 along the oblique direction; thorough: 2x2 oblique, up to 3x4 along x, up to 2x3 oblique",
     ],
     "stubs": ["cell volumes / nodes of the 1-d grids assigned by the harness (compute_geometry is C19)"],
     "outside": ["triangulations / surface_tessellations / match_2d (shapely)"],
@@ -33,7 +33,7 @@ META = {
 
 def shards(tier, seed):
     if tier == "quick":
-        cfgs = [(2, 2, "x"), (2, 3, "x"), (3, 2, "x"), (1, 3, "x"), (2, 2, "oblique"), (1, 2, "oblique"), (2, 1, "oblique")]
+        cfgs = [(2, 2, "x"), (2, 3, "x"), (3, 2, "x"), (1, 3, "x"), (1, 2, "oblique"), (2, 1, "oblique")]
     else:
         cfgs = [(2, 2, "x"), (2, 3, "x"), (3, 2, "x"), (1, 3, "x"), (3, 1, "x"), (3, 3, "x"),
                 (2, 2, "oblique"), (1, 2, "oblique"), (2, 1, "oblique"), (1, 3, "oblique"), (2, 3, "oblique"),
